@@ -393,3 +393,13 @@ package protocol
 //@   ensures flexible && !tag.Nullable ==> isfunc(result, "(*encoder).encodeCompactBytes")
 //@   ensures !flexible && tag.Nullable ==> isfunc(result, "(*encoder).encodeNullBytes")
 //@   ensures !flexible && !tag.Nullable ==> isfunc(result, "(*encoder).encodeBytes")
+
+//@ property C04
+// Marshal hands out bytes that belong to the caller: the result is a new array, not a view of the pooled encoder buffer
+// (which the deferred Reset/Put hands to the next Marshal call - two results alive at once, e.g. the member assignments of
+// a SyncGroup request, would otherwise share and overwrite each other's bytes).
+//@ func Marshal
+//@   option noframe
+//@   option only post
+//@   modifies heap
+//@   ensures result1 == nil ==> fresh(result0)
